@@ -160,7 +160,7 @@ def apply(drv: CL.Driver, a: Dict[str, Any], km, tk, inst):
     elif op == "attach":
         node = mc[km.path(a["p"])]
         key = a["schema"] if a["by"] == "name" else CL.CLASSES[a["cls"]]
-        val = inst if a["valid"] else {"definitely": "not valid", "x": "nan"}
+        val = inst if a["valid"] else dict(CL.INVALID)
         if a["as"] == "object" and a["valid"]:
             val = CL.CLASSES[a["cls"]].parse_obj(inst)
         node.meta[key] = val
@@ -296,6 +296,8 @@ def gen(rng: random.Random, h5rec: Dict[str, Any], stage: int, job: Dict[str, An
         a["p"] = rng.choice(nodes) if rng.random() < 0.92 else ["zz", "nope"]
         keys = ["AA10", "AA20", "DD01", "AUX01"] + (["AA12", "BB10", "CC02", "BB10", "CC02"] if stage >= 1 else [])
         a["cls"] = rng.choice(keys)
+        if rng.random() < job.get("p_installed", 0.2):
+            a["cls"] = "I:" + rng.choice(CL.INSTALLED)
         cls = CL.CLASSES[a["cls"]]
         a["schema"] = cls.Plugin.name
         a["by"] = rng.choice(["name", "class", "class"])
